@@ -272,7 +272,7 @@ def spec_decode(bs):
         v, i = rd_varuint(bs, i, end)
         fs.append(v)
     if len(fs) == 0:
-        raise Unjudged()
+        return "invalid", "no year (the offset must be followed by at least the year)"
     if len(fs) == 4:
         return "invalid", "hour without minute"
     y = fs[0]
@@ -300,7 +300,7 @@ def spec_decode(bs):
             return "invalid", "year %d" % y
         return "ok", [(y, mo, d, 0, 0, 0, 0, 0, 0, len(fs), 0)]
     if abs(off) >= 1440:
-        raise Unjudged()
+        return "invalid", "offset of %d minutes (a local offset is within -23:59..+23:59)" % off
     ly, lmo, ld, lh, lmi = shift_minutes(y, mo, d, h, mi, off)
     if not 1 <= ly <= 9999:
         return "invalid", "local year %d" % ly
